@@ -121,6 +121,7 @@ type wrun struct {
 	order    []*wcaller
 	seen     map[*gwrite]bool
 	wreq     map[*gwrite]int
+	multi    map[*gwrite][]int // a Write that carries several whole frames: the callers, in order
 	events   []string
 	trace    []string
 	pieces   []string
@@ -130,7 +131,7 @@ type wrun struct {
 	fatal    string
 	// features of the scenario (class label)
 	torn, kfWindow, quitQueue, enqAfterTorn, quitInFlush, quitSem bool
-	preCancelled, cancelInWrite, armFailed                        bool
+	preCancelled, cancelInWrite, armFailed, sizeMix               bool
 	armSeen                                                       int
 	tickSinceTorn                                                 bool
 }
@@ -141,7 +142,7 @@ func newWRun(conf wconf) *wrun {
 	if conf.wt {
 		wt = 10 * time.Minute
 	}
-	ru := &wrun{conf: conf, g: g, callers: map[int]*wcaller{}, seen: map[*gwrite]bool{}, wreq: map[*gwrite]int{}}
+	ru := &wrun{conf: conf, g: g, callers: map[int]*wcaller{}, seen: map[*gwrite]bool{}, wreq: map[*gwrite]int{}, multi: map[*gwrite][]int{}}
 	ru.v, ru.tick, ru.goneC = gocql.VerifNewManualWriter(g, conf.coal, wt)
 	if _, err := quiesce(); err != nil {
 		ru.fatal = "fatal not quiescent after the writer was made"
@@ -309,7 +310,13 @@ func (ru *wrun) exec(tok string) bool {
 		if p[1] == "ok" {
 			st = "ok"
 		}
-		ru.trace = append(ru.trace, fmt.Sprintf("e%d:%s", ru.wreq[w], st))
+		if ids := ru.multi[w]; ids != nil {
+			for _, id := range ids { // the Write ended for every frame it carried
+				ru.trace = append(ru.trace, fmt.Sprintf("e%d:%s", id, st))
+			}
+		} else {
+			ru.trace = append(ru.trace, fmt.Sprintf("e%d:%s", ru.wreq[w], st))
+		}
 		if st == "err" && w.off > 0 && w.off < len(w.p) {
 			ru.torn = true
 			ru.tickSinceTorn = false
@@ -321,6 +328,22 @@ func (ru *wrun) exec(tok string) bool {
 	ru.events = append(ru.events, tok)
 	ru.settle()
 	return true
+}
+
+// identifyAll: the callers whose whole frames p is the concatenation of (nil when p is anything else).
+func (ru *wrun) identifyAll(p []byte) []int {
+	fr, _, rest := memcluster.SplitFrames(p, wproto)
+	if len(rest) != 0 {
+		return nil
+	}
+	var ids []int
+	for _, f := range fr {
+		if ru.callers[f.Stream] == nil {
+			return nil
+		}
+		ids = append(ids, f.Stream)
+	}
+	return ids
 }
 
 func (ru *wrun) identify(p []byte) int {
@@ -401,6 +424,19 @@ func (ru *wrun) settle() {
 			continue
 		}
 		ru.seen[w] = true
+		// The property is about the byte stream, not about how it is cut into Writes: a Write that carries several whole
+		// frames back to back (a writer that gathers a batch into one buffer) is that many frames entering the transport
+		// together, each judged on its own bytes.
+		ids := ru.identifyAll(w.p)
+		if len(ids) > 1 && len(ids) == len(w.frames) {
+			ru.wreq[w] = ids[0]
+			ru.multi[w] = ids
+			for fi := range w.frames {
+				w.frames[fi].req = ids[fi]
+				entered(ids[fi], w.frames[fi].ln)
+			}
+			continue
+		}
 		id := ru.identify(w.p)
 		ru.wreq[w] = id
 		for fi := range w.frames {
@@ -517,7 +553,7 @@ func (ru *wrun) class() string {
 		s  string
 	}{{ru.torn, "torn"}, {ru.kfWindow, "KF-C07-1-window"}, {ru.quitQueue, "quit-with-queue"}, {ru.enqAfterTorn, "queued-between-torn-and-quit"},
 		{ru.quitInFlush, "quit-inside-write"}, {ru.quitSem, "quit-with-semaphore-waiters"},
-		{ru.preCancelled, "ctx-ended-before-select"}, {ru.cancelInWrite, "cancel-inside-write"}, {ru.armFailed, "deadline-arming-failed"}} {
+		{ru.preCancelled, "ctx-ended-before-select"}, {ru.cancelInWrite, "cancel-inside-write"}, {ru.armFailed, "deadline-arming-failed"}, {ru.sizeMix, "size-mix-across-batching-thresholds"}} {
 		if f.on {
 			cls += "/" + f.s
 		}
@@ -599,6 +635,73 @@ func (ru *wrun) flushIfQueued(step func(string)) {
 	if ru.conf.coal && ru.fatal == "" && !ru.goneSeen && ru.queued() > 0 && len(ru.g.heldSnapshot()) == 0 {
 		step("t")
 	}
+}
+
+// drainCut serves the Writes inside the transport oldest first under a byte budget: a Write that fits is delivered whole
+// and ends ok; the Write in which the budget runs out is delivered up to that byte and ends with `ek` (then nothing is
+// cut any more: *budget < 0). With the budget spent at a Write boundary the NEXT Write ends with `ek` after 0 bytes.
+func (ru *wrun) drainCut(budget *int, ek string) {
+	for i := 0; i < 100 && ru.fatal == ""; i++ {
+		held := ru.g.heldSnapshot()
+		if len(held) == 0 {
+			return
+		}
+		sort.Slice(held, func(i, j int) bool { return held[i].idx < held[j].idx })
+		w := held[0]
+		id := ru.wreq[w]
+		rem := len(w.p) - w.off
+		switch {
+		case ru.g.isClosed():
+			ru.exec(fmt.Sprintf("e%d:pipe", id))
+		case *budget < 0 || *budget >= rem:
+			if rem > 0 {
+				ru.exec(fmt.Sprintf("p%d:%d", id, rem))
+			}
+			ru.exec(fmt.Sprintf("e%d:ok", id))
+			if *budget >= 0 {
+				*budget -= rem
+			}
+		default:
+			if *budget > 0 {
+				ru.exec(fmt.Sprintf("p%d:%d", id, *budget))
+			}
+			ru.exec(fmt.Sprintf("e%d:%s", id, ek))
+			*budget = -1
+		}
+	}
+}
+
+// wSizeMix: frame SIZE mixes across batching thresholds x a cut at a byte offset of the request stream. The callers
+// arrive one after the other WITHOUT a timer tick in between (small frames queued, then a frame larger than any
+// batching buffer, or the large one first / in the middle); whatever enters the transport - at any moment: after a
+// tick for the writer as it is, but also on arrival for a writer that flushes early when its buffer is full - is served
+// oldest first until `cut` bytes of the stream are out; the Write that holds byte `cut` ends there with `ek`; everything
+// else is served whole; ticks are fired whenever requests are queued and nothing is inside the transport.
+func wSizeMix(conf wconf, cut int, ek string) wcase {
+	ru := newWRun(conf)
+	defer ru.finish()
+	step := func(tok string) {
+		if ru.fatal == "" && !ru.exec(tok) {
+			ru.fatal = "fatal size-mix command not executable: " + tok + " after " + strings.Join(ru.events, " ")
+		}
+	}
+	ru.sizeMix = true
+	budget := cut
+	for i := range conf.lens {
+		step(fmt.Sprintf("s%d", i+1))
+		ru.drainCut(&budget, ek)
+	}
+	for i := 0; i < 8 && ru.fatal == ""; i++ {
+		ru.flushIfQueued(step)
+		ru.drainCut(&budget, ek)
+		if ru.queued() == 0 && len(ru.g.heldSnapshot()) == 0 {
+			break
+		}
+	}
+	if ru.fatal == "" {
+		ru.windUp()
+	}
+	return ru.result()
 }
 
 // wind up: quit (if not yet), whatever then enters the transport is served whole (a healthy socket), socket closed.
@@ -733,6 +836,32 @@ func wTemplate(conf wconf, kind, cut, mid int, ek string) wcase {
 		ru.serve()
 		ru.flushIfQueued(step)
 		ru.serve()
+	case 6:
+		// cancellation INSIDE THE RESULT FAN-OUT window of a batch: all three callers are in one flush (direct writer: 2, 3
+		// wait for the semaphore); frame 1 is written whole and its Write ends ok - the coalescer's caller 1 now has its whole
+		// frame on the wire but not yet its result (flush hands the results out after the last buffer); contexts are cancelled
+		// (mid 0: all, 1: only caller 1, 2: only caller 3, still behind); frame 2 is held after `cut` bytes and ends with `ek`.
+		// Caller 1 must be told (len, nil), never (0, ctx error).
+		step("s1")
+		step("s2")
+		step("s3")
+		ru.flushIfQueued(step)
+		if w := ru.heldOf(1); w != nil {
+			step(fmt.Sprintf("p1:%d", conf.lens[0]))
+			if w.off == len(w.p) { // (a writer that puts the batch into ONE Write: frame 1 is out, the Write goes on)
+				step("e1:ok")
+			}
+		}
+		for _, c := range [][]int{{1, 2, 3}, {1}, {3}}[mid] {
+			step(fmt.Sprintf("c%d", c))
+		}
+		budget := imin(cut, conf.lens[1]-1)
+		if ek == "ok" {
+			budget = -1
+		}
+		ru.drainCut(&budget, ek)
+		ru.flushIfQueued(step)
+		ru.serve()
 	case 4:
 		// caller 1's Write is inside the transport after `cut` bytes; callers 2.. arrive: `mid` of them with their context
 		// already ended (only ctx.Done is ready: they leave at once), the others normally; then EVERY context is cancelled -
@@ -774,6 +903,9 @@ func runWSched(r *vh.Rng, conf wconf) wcase {
 		l := 10 + r.Intn(60)
 		if r.Intn(8) == 0 {
 			l = 4095 + r.Intn(3)
+		}
+		if r.Intn(12) == 0 { // larger than a batching buffer of 16 KiB / 64 KiB / 1 MiB
+			l = []int{16 << 10, 64 << 10, 1 << 20}[r.Intn(3)] + r.Intn(3) - 1
 		}
 		conf.lens = append(conf.lens, l)
 	}
